@@ -393,6 +393,52 @@ class Builtins:
         from .models import ghost_get
         return self.ex.ok(ghost_get(st, args[0].lit), st)
 
+    # ---- vote ledger (ghosts T and G: models.py)
+    def b_spec_ledger_on(self, args, kw, st, fr):
+        from .models import ledger_on
+        return self.ex.ok(SBool(ledger_on(self.ex)), st)
+
+    def b_spec_ghost_at(self, args, kw, st, fr):
+        "ghost_at('G', c): the ghost array at object c (an integer term or a reference)"
+        from .models import ghost_get
+        c = args[1].inner if isinstance(args[1], SOpt) else args[1]
+        return self.ex.ok(SVal(z3.Select(ghost_get(st, args[0].lit).t, c.t)), st)
+
+    def b_spec_top_ref(self, args, kw, st, fr):
+        "top_ref(b): the object id of the candidate ballot b stands with (0 when exhausted)"
+        from .models import top_of
+        self.ex.election_facts(st)
+        return self.ex.ok(SInt(top_of(self.ex.C, st, args[0].t)), st)
+
+    def b_spec_ballot_value(self, args, kw, st, fr):
+        from .models import ballot_value
+        return self.ex.ok(SVal(ballot_value(self.ex.C, st, args[0].t)), st)
+
+    def b_spec_ghost_moved(self, args, kw, st, fr):
+        "ghost_moved('G', frm, to, amt): the ghost array is its pre-state value with amt moved from index frm to index to"
+        from .models import ghost_get, arr_move
+        pre = self.ex.spec_pre
+        G1 = ghost_get(st, args[0].lit).t
+        G0 = ghost_get(pre, args[0].lit).t if pre is not None else G1
+        moved = arr_move(G0, args[1].t, args[2].t, args[3].t)
+        if len(args) > 4:       # ghost_moved(..., when): unchanged unless `when`
+            moved = z3.If(args[4].t, moved, G0)
+        return self.ex.ok(SBool(G1 == moved), st)
+
+    def b_spec_no_ballot_at(self, args, kw, st, fr):
+        "no_ballot_at(c): no ballot of the election stands with candidate c"
+        from .models import top_of, isBallot
+        b = z3.Int('b!nb')
+        c = args[0].inner if isinstance(args[0], SOpt) else args[0]
+        return self.ex.ok(SBool(z3.ForAll([b], z3.Implies(isBallot(b), top_of(self.ex.C, st, b) != c.t))), st)
+
+    def b_spec_val_times_int(self, args, kw, st, fr):
+        "val_times_int(v, k): the value v times the integer k (exact in every arithmetic)"
+        v, k = args
+        if self.ex.instance == 'real':
+            return self.ex.ok(SVal(v.t * z3.ToReal(k.t)), st)
+        return self.ex.ok(SVal(v.t * k.t), st)
+
     def b_spec_in_election(self, args, kw, st, fr):
         from .models import inC
         self.ex.election_facts(st)
